@@ -391,6 +391,11 @@ impl Property for C12 {
                     && matches!((&src_out, &o), (Outcome::Fail { msg: a, .. }, Outcome::Fail { msg: b, .. }) if b.contains(a.as_str()));
                 if !(same_out || loosely_same) {
                     let text = format!("route {}: source gives {} , bytecode gives {}", route, show_outcome(&src_out), show_outcome(&o));
+                    let mut feats = feats.clone();
+                    if open_row_inside_value_type(&src_out) || open_row_inside_value_type(&o) {
+                        // the checker's row defect (KF-C02-01/05): the value cannot be read by its type
+                        feats.push("open_row_in_result_type".to_string());
+                    }
                     j.verdict = match kf.matches("C12", "not_equal", &text, &feats) {
                         Some(id) => Verdict::Known(id),
                         None => Verdict::Violation(format!("{}\nprogram:\n{}", text, src)),
